@@ -218,7 +218,7 @@ theorem C05_leaf_hash_step (cx : Ctx) (tc : TapCtx) (e : IEnv) (t t' : Tce)
 theorem C05_step_phase (cx : Ctx) (tc : TapCtx) (e : IEnv) (t t' : Tce) (he : e.tce = some t) :
     (t.iterate tc = (.processing, t') →
       stepSession cx tc e = .ok { e with tce := some t', currOpSeq := e.currOpSeq + 1 }) ∧
-    (t.iterate tc = (.failed, t') → stepSession cx tc e = .error (.script .UNKNOWN_ERROR)) := by
+    (t.iterate tc = (.failed, t') → stepSession cx tc e = .error (.script .WITNESS_PROGRAM_MISMATCH)) := by
   unfold stepSession
   rw [he]
   constructor
